@@ -111,6 +111,61 @@ pub trait Engine: Sync {
     fn stack_bytes(&self) -> usize {
         64 << 20
     }
+    /// Re-run a failing case on a brand-new thread before reporting it (engines whose property is
+    /// about state carried between operations).
+    fn confirm_on_fresh_thread(&self) -> bool {
+        false
+    }
+}
+
+/// Run `cases` in order on a brand-new OS thread; returns the violations of the last one.
+pub fn run_sequence_isolated(engine: &dyn Engine, seed: u64, cases: &[u64], tier: &str) -> Vec<Violation> {
+    std::thread::scope(|s| {
+        std::thread::Builder::new()
+            .stack_size(engine.stack_bytes())
+            .spawn_scoped(s, move || {
+                crate::hook::install_panic_hook();
+                let mut last = Vec::new();
+                for (i, c) in cases.iter().enumerate() {
+                    let mut acc = Acc::default();
+                    engine.run_case(seed, *c, tier, &mut acc);
+                    if i + 1 == cases.len() {
+                        last = acc.violations;
+                    }
+                }
+                last
+            })
+            .expect("spawn isolated thread")
+            .join()
+            .expect("isolated thread panicked (harness)")
+    })
+}
+
+fn confirm_isolated(engine: &dyn Engine, seed: u64, idx: u64, tier: &str, recent: &[u64], found: Vec<Violation>) -> Vec<Violation> {
+    let alone = run_sequence_isolated(engine, seed, &[idx], tier);
+    if !alone.is_empty() {
+        return alone;
+    }
+    let mut n = 1;
+    while n <= recent.len() {
+        let mut seq: Vec<u64> = recent[recent.len() - n..].to_vec();
+        seq.push(idx);
+        let vs = run_sequence_isolated(engine, seed, &seq, tier);
+        if let Some(v) = vs.into_iter().next() {
+            let mut v = v;
+            v.class = format!("{}(after-earlier-cases)", v.class);
+            v.summary = format!("only after cases {:?} on the same thread: {}", &seq[..seq.len() - 1], v.summary);
+            v.replay = json!({"engine": v.engine, "property": v.property, "seed": seed, "case": idx, "tier": tier, "regenerate": true, "sequence": seq, "class": v.class, "inner": v.replay});
+            return vec![v];
+        }
+        if n == recent.len() {
+            break;
+        }
+        n = (n * 2).min(recent.len());
+    }
+    // not reproducible in isolation: keep the original report; the parent's fresh-process replay
+    // will withdraw it (exit 2) if it does not reproduce there either
+    found
 }
 
 pub struct ChildOut {
@@ -149,6 +204,7 @@ pub fn run_threads(engine: &dyn Engine, seed: u64, tier: &str, first: u64, count
                 .spawn_scoped(s, move || {
                     crate::hook::install_panic_hook();
                     let mut acc = Acc::default();
+                    let mut recent: Vec<u64> = Vec::new();
                     loop {
                         if stop.load(Ordering::Relaxed) {
                             break;
@@ -163,6 +219,18 @@ pub fn run_threads(engine: &dyn Engine, seed: u64, tier: &str, first: u64, count
                         let nv = acc.violations.len();
                         let d = engine.run_case(seed, idx, tier, &mut acc);
                         ran.fetch_add(1, Ordering::Relaxed);
+                        if acc.violations.len() > nv && engine.confirm_on_fresh_thread() {
+                            // The worker thread has run many cases before this one. Make the report
+                            // self-contained: it must reproduce on a brand-new thread, alone or after a
+                            // suffix of this worker's own case history (state carried from one parser
+                            // value to another through a thread-local or a global).
+                            let found = acc.violations.split_off(nv);
+                            acc.violations.extend(confirm_isolated(engine, seed, idx, tier, &recent, found));
+                        }
+                        recent.push(idx);
+                        if recent.len() > 64 {
+                            recent.remove(0);
+                        }
                         // in-run determinism guard: re-execute ~1% of the cases and compare digests
                         if crate::prng::mix64(idx ^ 0xD17E) % 100 == 0 {
                             let mut scratch = Acc::default();
